@@ -213,16 +213,24 @@ loop:
 			}
 			spec.Q = 1.0
 			s = skipSpace(s)
-			if strings.HasPrefix(s, ";") {
-				s = skipSpace(s[1:])
-				for !strings.HasPrefix(s, "q=") && s != "" && !strings.HasPrefix(s, ",") {
-					s = skipSpace(s[1:])
+			// parameters: only the one named exactly "q" is the quality; the others, before and after it, are skipped
+			for hasQ := false; strings.HasPrefix(s, ";"); s = skipSpace(s) {
+				var name string
+				name, s = expectToken(skipSpace(s[1:]))
+				if !strings.HasPrefix(s, "=") {
+					continue
 				}
-				if strings.HasPrefix(s, "q=") {
-					spec.Q, s = expectQuality(s[2:])
+				if name == "q" && !hasQ {
+					hasQ = true
+					spec.Q, s = expectQuality(s[1:])
 					if spec.Q < 0.0 {
 						continue loop
 					}
+					continue
+				}
+				_, s = expectTokenOrQuoted(s[1:])
+				if i := strings.IndexAny(s, ";,"); i > 0 {
+					s = s[i:] // tolerate an unquoted value holding separators
 				}
 			}
 
